@@ -111,6 +111,80 @@ def soup_strategy(pools=POOLS, max_tokens=6):
                                      st.sampled_from(["", "", " ", ".", ")", " #tag"])))
 
 
+# ---------------------------------------------------------------------------------
+# structured families: the shapes the rules compose (ranges, day x clock, part of day x
+# clock, date ranges, durations) with the numeric slots drawn over their FULL ranges, so that
+# a defect confined to one hour pair / one day / one joiner is reachable
+
+DAYS = ["", "", "tomorrow", "morgen", "friday", "montag", "5.10.2020", "11.03.2021", "31.12.2020",
+        "29.02.2020", "May 5th", "am 5.", "next friday", "heute", "31.1.", "on monday"]
+FAM_PODS = ["morning", "evening", "afternoon", "night", "nachmittags", "abends", "tonight", "noon", "vormittags",
+            "early morning", "late evening", "very late night", "first", "last", "früh"]
+FAM_JOIN = ["-", " - ", " to ", " bis ", " until ", " and ", " und ", "–", " til ", "/"]
+FAM_RANGE_PRE = ["", "", "from ", "von ", "between ", "zwischen "]
+FAM_CLOCK_SUF = ["", "", "", " uhr", "h", "pm", "am", " pm", " am", " o'clock", ":00", " Uhr"]
+FAM_UNITS = ["days", "day", "nights", "night", "weeks", "months", "month", "hours", "h", "minutes", "m", "tage",
+             "nächte", "wochen", "monate", "stunden", "minuten", "übernachtung"]
+
+
+def _clock(h, mi, style, suf):
+    if mi is None:
+        return "{}{}".format(h, suf)
+    if style == 0:
+        return "{}:{:02d}{}".format(h, mi, suf if suf not in (":00",) else "")
+    if style == 1:
+        return "{:02d}{:02d}{}".format(h, mi, suf if suf not in (":00", " o'clock") else "")
+    if style == 2:
+        return "{}h{:02d}".format(h, mi)
+    return "{}.{:02d}{}".format(h, mi, suf if suf in ("pm", "am", " pm", " am") else "")
+
+
+def family_strategy():
+    hour = st.one_of(st.integers(0, 23), st.sampled_from([0, 11, 12, 12, 13, 23, 24]))
+    minute = st.one_of(st.none(), st.none(), st.sampled_from([0, 15, 30, 45, 59, 5]))
+    style = st.integers(0, 3)
+    suf = st.sampled_from(FAM_CLOCK_SUF)
+    clock = st.builds(_clock, hour, minute, style, suf)
+    day = st.sampled_from(DAYS)
+    pod = st.sampled_from(FAM_PODS)
+    join = st.sampled_from(FAM_JOIN)
+    pre = st.sampled_from(FAM_RANGE_PRE)
+    dom = st.integers(1, 31)
+    mon = st.integers(1, 12)
+    year = st.sampled_from([2019, 2020, 2021, 2024, 19, 20, 99])
+    date = st.one_of(
+        st.builds(lambda d, m, y: "{}.{}.{}".format(d, m, y), dom, mon, year),
+        st.builds(lambda d, m: "{}.{}.".format(d, m), dom, mon),
+        st.builds(lambda d: "{}.".format(d), dom),
+        st.builds(lambda d, m, y: "{}/{}/{}".format(d, m, y), dom, mon, year),
+        st.builds(lambda d, m, y: "{} {} {}".format(m, d, y), dom, st.sampled_from(MONTHS), year),
+        st.builds(lambda d, m: "{}th of {}".format(d, m), dom, st.sampled_from(MONTHS)),
+        day)
+    num = st.one_of(st.integers(0, 120), st.sampled_from([1, 2, 3, 28, 29, 30, 31, 1000, 100000]))
+    dur = st.builds(lambda n, u: "{} {}".format(n, u), num, st.sampled_from(FAM_UNITS))
+    sp = " "
+    fams = [
+        st.builds(lambda d, p, a, j, b: (d + sp + p + a + j + b).strip(), day, pre, clock, join, clock),
+        st.builds(lambda po, a, j, b: po + sp + a + j + b, pod, clock, join, clock),
+        st.builds(lambda d, po, a, j, b: (d + sp + po + sp + a + j + b).strip(), day, pod, clock, join, clock),
+        st.builds(lambda a, j, b, po: a + j + b + sp + po, clock, join, clock, pod),
+        st.builds(lambda d, c: (d + sp + c).strip(), date, clock),
+        st.builds(lambda c, d: (c + sp + d).strip(), clock, date),
+        st.builds(lambda c, po: c + sp + po, clock, pod),
+        st.builds(lambda po, c: po + sp + c, pod, clock),
+        st.builds(lambda a, j, b: a + j + b, date, join, date),
+        st.builds(lambda a, j, b, c: a + j + b + sp + c, date, join, date, clock),
+        st.builds(lambda d, du: d + " for " + du, date, dur),
+        st.builds(lambda du, a, j, b: du + sp + a + j + b, dur, date, join, date),
+        st.builds(lambda a, j, b, du: a + j + b + " für " + du, date, join, date, dur),
+        st.builds(lambda q, c: q + sp + c, st.sampled_from(QUARTER), clock),
+        st.builds(lambda w, c: w + sp + c, st.sampled_from(BEFAFT), st.one_of(clock, date)),
+        st.builds(lambda m1, m2, po: m1 + sp + m2 + sp + po, st.sampled_from(MODS), st.sampled_from(MODS), pod),
+        st.builds(lambda wd, d: wd + sp + d, st.sampled_from(WEEKDAYS), st.one_of(date, st.builds(lambda d: "{}th".format(d), dom))),
+    ]
+    return st.one_of(*fams)
+
+
 _corpus_cache = None
 
 
@@ -168,7 +242,7 @@ def text_strategy(max_free=40):
     free2 = st.text(alphabet=st.sampled_from(list("0123456789.:/-# abcdefhimnoprstuyAP,;äöüß\t\n​()")),
                     max_size=24)
     return st.one_of(soup_strategy(), soup_strategy(), soup_strategy(DATE_POOLS, 5), free, free2,
-                     mutate_strategy())
+                     mutate_strategy(), family_strategy())
 
 
 def scorer_from_spec(spec):
@@ -197,10 +271,15 @@ def options_strategy():
 # work bound
 
 
-def seq_stats(text):
-    """(number of pattern matches, number of maximal gap-free match sequences) for the
-    cleaned text; matches come from the library's matcher, the count of sequences from an
-    own DP over the 'adjacent' relation.  Used only as a work bound."""
+_stats_cache = {}
+
+
+def seq_stats3(text):
+    """(number of pattern matches, number of maximal gap-free match sequences, length of the
+    longest such sequence) for the cleaned text; matches come from the library's matcher,
+    counts from an own DP over the 'adjacent' relation.  Used only as a work bound."""
+    if text in _stats_cache:
+        return _stats_cache[text]
     m = core.load_repo()
     import re as _re
 
@@ -209,33 +288,45 @@ def seq_stats(text):
     ms = m._match_regex(t, m.global_regex)
     n = len(ms)
     if n == 0:
-        return 0, 0
-    if n > 60:
-        return n, 10 ** 9
+        res = (0, 0, 0)
+    elif n > 60:
+        res = (n, 10 ** 9, n)
+    else:
+        def adj(a, b):
+            gap = t[a.mend:b.mstart]
+            return b.mstart >= a.mend and (gap == "" or gap.isspace())
 
-    def adj(a, b):
-        gap = t[a.mend:b.mstart]
-        return b.mstart >= a.mend and (gap == "" or gap.isspace())
+        succ = [[j for j in range(i + 1, n) if adj(ms[i], ms[j])] for i in range(n)]
+        haspred = [False] * n
+        for i in range(n):
+            for j in succ[i]:
+                haspred[j] = True
+        cnt = [0] * n
+        ln = [0] * n
+        for i in reversed(range(n)):
+            cnt[i] = 1 if not succ[i] else sum(cnt[j] for j in succ[i])
+            ln[i] = 1 + (max(ln[j] for j in succ[i]) if succ[i] else 0)
+        res = (n, sum(cnt[i] for i in range(n) if not haspred[i]), max(ln))
+    if len(_stats_cache) > 5000:
+        _stats_cache.clear()
+    _stats_cache[text] = res
+    return res
 
-    succ = [[j for j in range(i + 1, n) if adj(ms[i], ms[j])] for i in range(n)]
-    haspred = [False] * n
-    for i in range(n):
-        for j in succ[i]:
-            haspred[j] = True
-    cnt = [0] * n
-    for i in reversed(range(n)):
-        cnt[i] = 1 if not succ[i] else sum(cnt[j] for j in succ[i])
-    return n, sum(cnt[i] for i in range(n) if not haspred[i])
+
+def seq_stats(text):
+    return seq_stats3(text)[:2]
 
 
-def bounded_options(text, opts, max_seq=600, max_seq_depth0=40):
-    """Apply DESIGN 3.8: returns (opts', cls) or (None, 'skipped-too-large')"""
-    n, nseq = seq_stats(text)
+def bounded_options(text, opts, max_seq=600, max_seq_depth0=40, max_len_depth0=6):
+    """Apply DESIGN 3.8: returns (opts', cls) or (None, 'skipped-too-large').  Unlimited depth
+    is exponential in the length of the candidate sequences, so depth 0 is only used when the
+    longest sequence has <= max_len_depth0 matches and there are <= max_seq_depth0 sequences."""
+    n, nseq, maxlen = seq_stats3(text)
     if nseq > max_seq:
         return None, "skipped-too-many-sequences"
     o = dict(opts)
     cls = "depth{}".format(o.get("max_stack_depth", 10))
-    if o.get("max_stack_depth", 10) == 0 and nseq > max_seq_depth0:
+    if o.get("max_stack_depth", 10) == 0 and (nseq > max_seq_depth0 or maxlen > max_len_depth0):
         o["max_stack_depth"] = 10
         cls = "depth0->10(work bound)"
     return o, cls
